@@ -63,7 +63,9 @@ RankElim(M) == RankSet({M[j] : j \in DOMAIN M})
 
 \* Families as they come out of JSON: F is a sequence of sequences of 0-based coordinates < n
 \* (duplicate-free); member number j (0-based) is F[j + 1].
-SeqToSet(s) == {s[i] : i \in 1..Len(s)}
+\* (the CHOOSE over a singleton only makes TLC sort the set once, when it is built: Cardinality
+\* normalises the value in place, and membership in a sorted set is a binary search)
+SeqToSet(s) == CHOOSE S \in {{s[i] : i \in 1..Len(s)}} : Cardinality(S) >= 0
 InRange(s, n) == \A i \in 1..Len(s) : s[i] \in 0..(n - 1)
 NoDup(s) == Cardinality(SeqToSet(s)) = Len(s)
 \* the members of F as sets (built as an explicit sequence: a function constructor [i \in .. |-> ..]
